@@ -13,11 +13,14 @@ from qce_circuit.structure.intrf_circuit_operation_composite import CircuitCompo
 from qce_circuit.language.declarative_circuit import DeclarativeCircuit  # noqa: E402
 
 EXTRA = {
-    'DetectorOperation': [[['last_acquisition_index', '5'], ['main_target', '4'], ['secondary_target', '3'], ['reference_offset', '2'], ['secondary_offset', '1']],
-                          [['last_acquisition_index', '5'], ['main_target', '4'], ['reference_offset', '2']],
-                          [['last_acquisition_index', '5'], ['main_target', '4'], ['secondary_target', '3']]],
-    'LogicalObservableOperation': [[['last_acquisition_index', '5'], ['main_target', '4']]],
-    'CoordinateShiftOperation': [[['space_shift', '0'], ['time_shift', '1']]],
+    'DetectorOperation': [[['last_acquisition_index', 5], ['main_target', 4], ['secondary_target', 3], ['reference_offset', 2], ['secondary_offset', 1]],
+                          [['last_acquisition_index', 5], ['main_target', 4], ['secondary_target', 3], ['reference_offset', 2]],
+                          [['last_acquisition_index', 5], ['main_target', 4], ['reference_offset', 2]],
+                          [['last_acquisition_index', 5], ['main_target', 4], ['secondary_target', 3]],
+                          [['last_acquisition_index', 5], ['main_target', 4]],
+                          [['last_acquisition_index', 5]]],
+    'LogicalObservableOperation': [[['last_acquisition_index', 5], ['main_target', 4]], [['last_acquisition_index', 7], ['main_target', 2]]],
+    'CoordinateShiftOperation': [[['space_shift', 0], ['time_shift', 1]], [['space_shift', 2], ['time_shift', 0]]],
 }
 
 
